@@ -191,7 +191,9 @@ def sweep_cases():
                     for ns in (0, 2):
                         out.append({"elem": elem, "order": order, "features": feats, "n_smooth": ns, "cotan": (order + ns) % 3 != 0,
                                     "smooth_normals": order % 2 == 0 or feats, "V": V, "F": F, "planar": planar, "kind": nm,
-                                    "seed": 7 * order + ns})
+                                    "seed": 7 * order + ns,
+                                    "protocol": ["init_opt", "run", "init_run", "call", "init_opt_run", "run_run", "opt_opt",
+                                                 "init_call", "init_opt_ns_opt"][(order + 2 * ns + (1 if feats else 0) + len(out)) % 9]})
     return out
 
 
@@ -270,7 +272,10 @@ def run(ctx):
     ctx.rule = ("triangulated surfaces with float coordinates: bordered grids (optionally with a hole, planar or with relief, "
                 "jittered), fans around an interior vertex, equilateral patches with two-border-edge corner faces, open box "
                 "(border + sharp edges), closed tetra/octa/cube/icosa/bipyramid/torus; orders 1-6, elements faces/vertices, "
-                "features on/off, n_smooth in {0,1,3}, cotan/uniform weights, smooth_normals on/off. Non-trivial = the mesh "
+                "features on/off, n_smooth in {0,1,3}, cotan/uniform weights, smooth_normals on/off; every field is driven through one of "
+                "the legal orders of its public stage methods (initialize+optimize, run, __call__, initialize then run / __call__, "
+                "initialize+optimize then run, run twice, optimize twice, n_smooth changed between two optimisations) and judged "
+                "after the protocol. Non-trivial = the mesh "
                 "has at least one free and one constrained element or is closed; distinct = canonical JSON of the case")
     ctx.assumptions += [
         "scipy spsolve / factorized / eigsh and the inverse power iteration are not modelled: the theorems hold for every "
@@ -343,6 +348,7 @@ def run(ctx):
         ctx.count("features=%s" % c["features"])
         ctx.count("n_smooth=%d" % c["n_smooth"])
         ctx.count("weights=" + ("cotan" if c["cotan"] else "uniform"))
+        ctx.count("protocol=" + c.get("protocol", "init_opt"))
         ctx.count("mesh=" + c["kind"].rstrip("0123456789x"))
         nontriv = False
         if r["ok"] and "crash" not in r["obs"]:
@@ -352,10 +358,10 @@ def run(ctx):
             ctx.count("branch=" + ("linear-solve" if o["feat"] else "eigen"))
             ctx.count("faces<=%d" % (10 * ((len(c["F"]) + 9) // 10)))
             nontriv = closed or (len(o["free"]) > 0 and len(o["fixed"]) > 0)
-        ctx.case_seen([c["elem"], c["order"], c["features"], c["n_smooth"], c["cotan"], c["smooth_normals"], c["V"], c["F"]],
+        ctx.case_seen([c["elem"], c["order"], c["features"], c["n_smooth"], c["cotan"], c["smooth_normals"], c.get("protocol"), c["V"], c["F"]],
                       nontrivial=nontriv,
                       sample={"mesh": c["kind"], "elem": c["elem"], "order": c["order"], "features": c["features"],
-                              "n_smooth": c["n_smooth"], "faces": len(c["F"])})
+                              "n_smooth": c["n_smooth"], "faces": len(c["F"]), "protocol": c.get("protocol", "init_opt")})
 
     # ---- 1. oracle on every case: EVERY offending element is classified
     fails = []   # (case index, key, message)
@@ -413,6 +419,19 @@ def run(ctx):
         n_dropped += (nf - len(fidx)) + (nv - len(vidx))
         bad_f = ctx.run_cases("faces", HEADER, fterms, "check_faces", case_type="fcase", shard=8 if quick else 25, timeout=900)
         bad_v = ctx.run_cases("vertices", HEADER, vterms, "check_vertices", case_type="vcase", shard=8 if quick else 25, timeout=900)
+        # the stage protocol: how often initialize / optimize really ran, against the model of run() and of the flags
+        PROTO = {"init_opt": "[CInit; COpt]", "run": "[CRun]", "call": "[CRun]", "init_run": "[CInit; CRun]", "init_call": "[CInit; CRun]",
+                 "init_opt_run": "[CInit; COpt; CRun]", "run_run": "[CRun; CRun]", "opt_opt": "[CInit; COpt; COpt]",
+                 "init_opt_ns_opt": "[CInit; COpt; COpt]"}
+        sidx = [i for i in okidx if "stage_calls" in results[i]["obs"]]
+        sterms = ["(%s, %s, %s, %s)" % (coq_bool(cases[i]["elem"] == "faces"), PROTO[results[i]["obs"]["protocol"]],
+                                       zlit(results[i]["obs"]["stage_calls"][0]), zlit(results[i]["obs"]["stage_calls"][1])) for i in sidx]
+        bad_s = ctx.run_cases("stages", HEADER, sterms, "check_stages", case_type="(bool * list call * Z * Z)", shard=400, timeout=300)
+        for k in (bad_s or []):
+            i = sidx[k]
+            fails.append((i, "stages/count", "protocol %s on a %s field ran initialize %d and optimize %d time(s), the model of run() and of the "
+                          "flags says otherwise" % (results[i]["obs"]["protocol"], cases[i]["elem"], results[i]["obs"]["stage_calls"][0],
+                                                    results[i]["obs"]["stage_calls"][1])))
         # the input class of the known crash is a statement about the MODEL's operator: kernel-checked per case
         if crash_cls:
             pterms = [parallel_term(cases[i], results[i]["obs"], fld) for i, fld in crash_cls]
